@@ -395,6 +395,43 @@ theorem updateDefaults_preserves_unmentioned (env : Env) (s s' : State) (new : D
         · simp at h3
 
 
+
+/-- **priority rule of `update` for one scalar item** (`update_defaults` uses
+`new-defaults`, `refresh`/`merge` use `new`): an absent key is always written; `new` always
+overwrites; `old` never does; `new-defaults` overwrites exactly when the current value is
+(Python-)equal to the default registered so far under either spelling of the key, and
+otherwise keeps the value the user set -/
+theorem update_leaf_priority_spec (old : Dict) (defs : Option Tree) (k dk : Key) (v oldv : Tree) :
+    (dget old k = .none → ∀ prio, updateLeaf prio old defs k dk v = .ok (dset old k v)) ∧
+    (updateLeaf .new old defs k dk v = .ok (dset old k v)) ∧
+    (dget old k = some oldv → updateLeaf .old old defs k dk v = .ok old) ∧
+    (dget old k = some oldv → defaultMatches defs dk oldv = .ok true →
+        updateLeaf .newDefaults old defs k dk v = .ok (dset old k v)) ∧
+    (dget old k = some oldv → defaultMatches defs dk oldv = .ok false →
+        updateLeaf .newDefaults old defs k dk v = .ok old) := by
+  refine ⟨?_, ?_, ?_, ?_, ?_⟩
+  · intro h prio; simp [updateLeaf, h]
+  · cases h : dget old k <;> simp [updateLeaf, h]
+  · intro h; simp [updateLeaf, h]
+  · intro h hm; simp [updateLeaf, h, hm, bind, Except.bind]
+  · intro h hm; simp [updateLeaf, h, hm, bind, Except.bind]
+
+
+/-- the default of a key is found under its other '-'/'_' spelling too (the defaults were
+registered as `a-b`, the configuration holds `a_b`) -/
+theorem defaults_found_under_twin (kvs : Dict) (k : Key) (t : Tree)
+    (h1 : dget kvs k = .none) (h2 : dget kvs (altKey k) = some t) :
+    defaultsGet (some (.node kvs)) (defaultsKey (some (.node kvs)) k) = .ok (some t) ∧
+    ∀ oldv, defaultMatches (some (.node kvs)) (defaultsKey (some (.node kvs)) k) oldv = .ok (pyEq t oldv) := by
+  have hne : kvs.isEmpty = false := by
+    cases kvs with
+    | nil => simp [dget] at h2
+    | cons a b => rfl
+  have hk : defaultsKey (some (.node kvs)) k = altKey k := by
+    simp [defaultsKey, hne, canonicalName, dhas, h1, h2]
+  rw [hk]
+  exact ⟨by simp [defaultsGet, hne, h2], fun oldv => by simp [defaultMatches, h2]⟩
+
 /-! ### whole histories (`Model/ConfigHistory.lean`: the transition function the driver runs) -/
 
 /-- Two key paths are *separated* when they leave each other at some level through keys that
